@@ -145,10 +145,7 @@ def go_build(pkgdir, out, tags="verif", timeout=900):
     return rc, (o + e)
 
 
-GENERATORS = [
-    # (output file under theories/gen, probe subcommand)
-    ("ModeTables.v", ["modes"]),
-]
+GENERATORS = []   # (output file under theories/gen, probe subcommand); filled from lib/vlib/gens/*.py
 
 
 def parse_coq_errors(text):
@@ -254,12 +251,33 @@ def prelude(need_model=True, need_grits=False):
 EXTRA_GENERATORS = []
 
 
+def _load_generator_modules():
+    """every module lib/vlib/gens/*.py may define GENERATORS (list of (file, probe-args)) and
+    EXTRA (list of functions taking the Build) - so that adding a translator touches no shared file"""
+    import importlib
+    import pkgutil
+    from . import gens
+    for m in pkgutil.iter_modules(gens.__path__):
+        mod = importlib.import_module("vlib.gens." + m.name)
+        for g in getattr(mod, "GENERATORS", []):
+            if g not in GENERATORS:
+                GENERATORS.append(g)
+        for g in getattr(mod, "EXTRA", []):
+            if g not in EXTRA_GENERATORS:
+                EXTRA_GENERATORS.append(g)
+
+
+_load_generator_modules()
+
+
 def build_model(b):
     """extract the executable model to OCaml and build the driver (only when sources changed)"""
     ex = os.path.join(COQ, "extract")
-    if not os.path.exists(os.path.join(ex, "Extract.v")):
+    import glob as _glob
+    if not _glob.glob(os.path.join(ex, "Extract_*.v")):
         return
-    stamp = tree_hash(THEORIES, (".v",)) + tree_hash(ex, ("Extract.v", ".ml", "dune", "dune-project"))
+    stamp = tree_hash(THEORIES, (".v",)) + tree_hash(ex, (".v", "registry.ml", "driver.ml", "build.sh")) + \
+        sha("".join(open(f).read() for f in sorted(_glob.glob(os.path.join(ex, "drv_*.ml")))))
     sp = os.path.join(CACHE, "model.stamp")
     if os.path.exists(b.model) and os.path.exists(sp) and open(sp).read() == stamp:
         return
